@@ -55,7 +55,7 @@ inductive Obs
   | num (n : Nat)
   /-- `stat <nBytes> <maxBytes> <retained bytes counted from the data>` -/
   | stat (nBytes maxBytes retained : Nat)
-  /-- concurrent run: nBytes equals the retained data -/
+  /-- concurrent run: nBytes equals the retained data, private streams replayed exactly -/
   | consistent
   /-- an `iter` record: how the iteration ended, what it delivered before, and what the `After`s issued
   from inside it observed (in script order) -/
@@ -97,7 +97,7 @@ inductive Clause
   /-- bytes_bound -/
   | bytesBound
   | badStat
-  /-- accounting after concurrent use -/
+  /-- accounting / exact replay of private streams under concurrent use -/
   | concurrent
   /-- an exported method panicked -/
   | panicked
